@@ -262,7 +262,7 @@ func vNewCliEnd(withSvc bool) *vCliEnd {
 		cc.RegisterService(vDesc(), e.impl)
 	}
 	cc.wg.Add(1)
-	go cc.handleRead(e.done)
+	go cc.handleRead(vFakeCliTr{tr}, e.done)
 	return e
 }
 
